@@ -52,7 +52,7 @@ func judge(r *ev.Run) strace.Judge {
 		for _, is := range strace.CheckC06(root, res, q.Completed(res)) {
 			r.Violation("C06:"+is.Sig+":"+c.Kind, c, fmt.Sprintf("request %+v: %s", q, is.Detail))
 		}
-		if q.Nodes >= 0 && q.Ponder == "" && res.Nodes > q.Nodes {
+		if q.Nodes >= 0 && res.Nodes > q.Nodes { // also while pondering: the counter stops at the budget
 			r.Violation("C06:node-budget-exceeded", c, fmt.Sprintf("hard budget %d, counted %d", q.Nodes, res.Nodes))
 		}
 		if res.Move == 0 {
@@ -109,7 +109,7 @@ func TestCheck(t *testing.T) {
 	}
 	r.Count("in_situ_consistency_checks_inside_search", board.VerifCheckCount.Load())
 	floors := []string{"searches", "abort_sweep_points", "searches_on_poisoned_table", "engines_warmed_up_on_another_root", "abort_sweep_sparse_deep_points", "searches_with_stop_signal", "ponder_searches_hit", "ponder_searches_miss", "searches_with_wall_clock_soft_limit", "searches_on_tiny_tables_without_output", "null_move_results", "completed_searches_on_final_roots",
-		"aborted_searches_returning_a_move", "in_situ_consistency_checks_inside_search", "root_mate", "root_stalemate", "root_repetition-3", "root_repetition-2", "root_near-fifty", "root_in-check", "root_few-replies", "root_promotion"}
+		"aborted_searches_returning_a_move", "in_situ_consistency_checks_inside_search", "root_mate", "root_stalemate", "root_repetition-3", "root_repetition-2", "root_near-fifty", "root_in-check", "root_few-replies", "root_promotion", "root_castle"}
 	if r.Stage == "main" {
 		floors = append(floors, "uci_go_commands", "uci_go_depth_over_127")
 	}
